@@ -230,7 +230,35 @@ func vary(t *rapid.T, groups []opGroup, target val.V) ([]opGroup, string) {
 	}
 	gi := gen.Int(t, "group", 0, len(groups)-1)
 	g := &groups[gi]
-	switch gen.Int(t, "variation", 0, 6) {
+	switch gen.Int(t, "variation", 0, 8) {
+	case 7: // the same hunk twice in a row (each copy is a hunk of the supported shape)
+		cp := opGroup{}
+		for _, op := range g.ctx {
+			cp.ctx = append(cp.ctx, cloneOp(op))
+		}
+		for _, op := range g.pairs {
+			cp.pairs = append(cp.pairs, cloneOp(op))
+		}
+		for _, op := range g.adds {
+			cp.adds = append(cp.adds, cloneOp(op))
+		}
+		out := append([]opGroup{}, groups[:gi+1]...)
+		out = append(out, cp)
+		out = append(out, groups[gi+1:]...)
+		return out, "duplicate-hunk"
+	case 8: // an index token written as a number that is not an RFC 6901 array index
+		ops := g.all()
+		if len(ops) > 0 {
+			op := ops[gen.Int(t, "whichOp", 0, len(ops)-1)]
+			prefix, tok := lastToken(op["path"].(string))
+			if isIndexToken(tok) {
+				op["path"] = prefix + "/" + tok + gen.Pick(t, "oddSuffix", []string{".0", "e0", ".5", "E0", "_0"})
+				if gen.Chance(t, "leadingZero", 20) {
+					op["path"] = prefix + "/0" + tok
+				}
+				return groups, "odd-index-token"
+			}
+		}
 	case 0: // value of a matching test/remove pair
 		if len(g.pairs) >= 2 {
 			k := 2 * gen.Int(t, "pair", 0, len(g.pairs)/2-1)
@@ -346,6 +374,9 @@ func genC10(t *rapid.T) PatchCase {
 			a, b = []val.V{"L", arr}, []val.V{"L", b2}
 		}
 	} else {
+		if gen.Chance(t, "nasty", 30) {
+			p.NastyKeys = true
+		}
 		a = gen.Doc(t, p)
 		b = gen.EditN(t, a, p, 1, 4)
 	}
